@@ -104,8 +104,8 @@ func kinds() []*kindSpec {
 		// Flush of an empty buffer leaks the sqlite gate (see NOTES.md Findings): the
 		// -inf kind shows that on a shallow tree; the -1 kind explores the merge
 		// iterator over a sqlite backing through automatic flushes only.
-		{name: "buffer-mem-sqlite-inf", class: clBF, typ: "sqlite", buffer: true, maxBuf: hugeBuf, reopens: true, lite: true},
-		{name: "buffer-mem-sqlite-1", class: clBF, typ: "sqlite", buffer: true, maxBuf: 1, lite: true, noFlush: true},
+		{name: "buffer-mem-sqlite-inf", class: clBF, typ: "sqlite", buffer: true, maxBuf: hugeBuf, reopens: true},
+		{name: "buffer-mem-sqlite-1", class: clBF, typ: "sqlite", buffer: true, maxBuf: 1},
 	}
 }
 
